@@ -9,6 +9,7 @@
 //
 //	open W F r|w|s        Open for Read | Write | Write+Sync (one descriptor per worker; refused when the file is held incompatibly)
 //	write W V             overwrite the whole content through the descriptor
+//	seek W | trunc W      Seek(0) / Truncate(4) on the descriptor (same content; the DagModifier syncs its buffer)
 //	flush W P | close W P Flush / Close, optionally parking at n = flushUp:nodeSet or l = updateChildEntry:localDone
 //	resume W P            continue a parked worker (to the next park point P or to completion)
 //	cat W F               Lookup + Open(Read) + read + Close
@@ -181,6 +182,22 @@ func (e *env) waitReasons() map[int64]string {
 		if k := strings.IndexByte(st, ','); k >= 0 {
 			st = st[:k]
 		}
+		// only a wait on a lock OF PACKAGE MFS counts as "blocked": the first frame that is not runtime / sync must be an
+		// mfs function (a momentary wait on a datastore or logger mutex whose holder is descheduled on a loaded machine
+		// must not be mistaken for it)
+		if lockWait(st) {
+			inMfs := false
+			for _, l := range strings.Split(blk, "\n")[1:] {
+				if strings.HasPrefix(l, "\t") || strings.HasPrefix(l, "sync.") || strings.HasPrefix(l, "runtime.") || strings.HasPrefix(l, "internal/") {
+					continue
+				}
+				inMfs = strings.HasPrefix(l, "github.com/ipfs/boxo/mfs.")
+				break
+			}
+			if !inMfs {
+				st = "running"
+			}
+		}
 		out[id] = st
 	}
 	return out
@@ -239,7 +256,7 @@ func (e *env) quiesce() []string {
 		}
 		if allBlocked {
 			confirm++
-			if confirm >= 3 {
+			if confirm >= 6 { // unchanged over >= 10 ms
 				return st
 			}
 		} else {
@@ -248,7 +265,7 @@ func (e *env) quiesce() []string {
 		if time.Now().After(deadline) {
 			panic("harness: workers did not quiesce: " + strings.Join(st, ","))
 		}
-		time.Sleep(200 * time.Microsecond)
+		time.Sleep(2 * time.Millisecond)
 	}
 }
 
@@ -498,6 +515,23 @@ func exec(c vh.Case, o *vh.Out) {
 			})
 			wrote[w.id] = string(data)
 			o.Kind("write")
+		case "seek", "trunc":
+			// descriptor operations that make the DagModifier write its buffer out on its own (no flushUp): the content
+			// stays what it is, the descriptor stays open
+			w := wIdx(1)
+			if busyW(w) || w.fd == nil || (f[0] == "trunc" && !w.fdWrite) {
+				res = "refused"
+				break
+			}
+			isSeek := f[0] == "seek"
+			e.start(w, "", func() string {
+				if isSeek {
+					_, err := w.fd.Seek(0, io.SeekStart)
+					return errStr(err)
+				}
+				return errStr(w.fd.Truncate(4))
+			})
+			o.Kind(f[0])
 		case "flush", "close":
 			w := wIdx(1)
 			if busyW(w) || w.fd == nil {
